@@ -5,7 +5,8 @@ from pyvc.api import *
 from pyvc.spec import callee_of
 
 SPEC_IMPORTS = ['contracts.common']
-SPEC_FUNCTIONS = ['moves_with', 'rebase', 'to_path_spec1', 'to_path_spec2', 'with_final_newline', 'valid_renames']
+SPEC_FUNCTIONS = ['moves_with', 'rebase', 'to_path_spec1', 'to_path_spec2', 'with_final_newline', 'valid_renames',
+                  'norm_lines', 'diff_header']
 
 
 def valid_renames(renames):
@@ -34,6 +35,23 @@ def to_path_spec2(p, r0, r1):
 
 def with_final_newline(line):
     return line if line == '' else line + '\n'
+
+
+def norm_lines(lines):
+    """the lines handed to difflib: a missing final newline is added (upstream's documented choice, so that
+    no '\\ No newline at end of file' marker is needed) - to the text's OWN last line only"""
+    if lines[-1] != '':
+        return lines[:-1] + [lines[-1] + '\n']
+    return lines
+
+
+def diff_header(p, project_path):
+    """file name in the diff header: relative to the project when inside it, '' for a path-less buffer"""
+    if p is None:
+        return ''
+    if moves_with(p, project_path):
+        return str(p.relative_to(project_path))
+    return str(p)
 
 
 _REN = Seq(Tup(PATH, PATH))
@@ -87,6 +105,20 @@ _get_renames = Contract(
     params={'self': Obj('Refactoring')}, families=['Refactoring'], ret=_REN,
     ensures=['len(result) == len(self._renames)',
              'all(r in self._renames for r in result)', 'all(r in result for r in self._renames)'],
+)
+
+_get_diff = Contract(
+    id='C07.ChangedFile.get_diff', prop='C07',
+    clause='(a) get_diff() is difflib\'s unified diff from the lines of the original text to the lines of '
+           'get_new_code() (each with its own missing final newline added), with project-relative headers',
+    file='jedi/api/refactoring/__init__.py', qualname='ChangedFile.get_diff',
+    params={'self': Obj('ChangedFile')}, families=['ChangedFile', 'InfState', 'Project', 'PNode'], ret=STR,
+    ensures=['result == "".join(difflib.unified_diff('
+             'norm_lines(split_lines(self._module_node.get_code(), True)), '
+             'norm_lines(split_lines(self.get_new_code(), True)), '
+             'diff_header(self._from_path, self._inference_state.project.path), '
+             'diff_header(self._to_path, self._inference_state.project.path))).rstrip(" ")'],
+    notes='difflib.unified_diff(a, b) is a unified diff turning "".join(a) into "".join(b): assumed',
 )
 
 _changed_apply = Contract(
@@ -166,7 +198,18 @@ FAMILIES = [
                            assumed=True, note='parso: replaces the code of exactly the mapped nodes')}),
 ]
 
-CONTRACTS = [_to_path, _get_renames, _new_code, _calc_rename, _try_rel]
+CONTRACTS = [_to_path, _get_renames, _new_code, _calc_rename, _try_rel, _get_diff]
+
+
+def register(reg):
+    from pyvc.values import MNS, MFn
+    reg.names['split_lines'] = FnSpec(
+        'split_lines', params=[('string', STR), ('keepends', BOOL)], defaults={'keepends': False}, ret=Seq(STR),
+        pure=True, assumed=True, ensures=['len(result) >= 1'],
+        note='parso.split_lines(keepends=True): the lines join back to the input; never empty')
+    reg.names['difflib'] = MNS('difflib', {'unified_diff': MFn('spec', 'difflib.unified_diff', spec=FnSpec(
+        'difflib.unified_diff', params=[('a', Seq(STR)), ('b', Seq(STR)), ('fromfile', STR), ('tofile', STR)],
+        ret=Seq(STR), pure=True, assumed=True))})
 
 
 # ---- structural obligations: no file-system mutation outside apply() ---------------------------
